@@ -73,14 +73,12 @@ def compact (s : State) : State :=
 
 def fuelOf (s : State) : Nat := 20000 + 40 * (s.rx.foldl (fun a f => a + f.data.length + 4) 0)
 
-def settleC (first : List Event) (prio : List Key) (s : State) : State × Bool :=
-  let (s', ok) := settle first prio (fuelOf s) s
-  (compact s', ok)
+def settleC (first : List Event) (prio : List Key) (s : State) : State × List Event × Bool :=
+  let (s', q, ok) := settle (requeue first s) prio (fuelOf s) s
+  (compact s', q, ok)
 
-/-- after quiescence: who is suspended on the channel slot now; those who were already waiting keep their place -/
-def Side.withState (sd : Side) (s' : State) : Side :=
-  let w := slotWaiters s'
-  { sd with s := s', chq := sd.chq.filter (fun e => w.contains e) ++ w.filter (fun e => !sd.chq.contains e) }
+/-- after quiescence: the new state and the senders still suspended on the channel slot, in arrival order -/
+def Side.withState (sd : Side) (s' : State) (q : List Event) : Side := { sd with s := s', chq := q }
 
 def setLimit (s : State) (l : Option Nat) : State := (step? s (.txWindow l)).getD s
 
@@ -93,12 +91,12 @@ def settlePair (pa pb : List Key) : Nat → Side → Side → Side × Side × Bo
   | fuel + 1, a, b =>
     let la := a.cap.map (· + b.s.pulled)
     let lb := b.cap.map (· + a.s.pulled)
-    let (sa, oka) := settleC a.chq pa (setLimit a.s la)
-    let (sb, okb) := settleC b.chq pb (setLimit b.s lb)
+    let (sa, qa, oka) := settleC a.chq pa (setLimit a.s la)
+    let (sb, qb, okb) := settleC b.chq pb (setLimit b.s lb)
     let fa := (sa.wire.take sa.flushed).drop a.fwdOut
     let fb := (sb.wire.take sb.flushed).drop b.fwdOut
-    let a1 := a.withState sa
-    let b1 := b.withState sb
+    let a1 := a.withState sa qa
+    let b1 := b.withState sb qb
     if fa.isEmpty && fb.isEmpty && a.cap.map (· + sb.pulled) == la && b.cap.map (· + sa.pulled) == lb then
       (a1, b1, oka && okb) else
     let sb' := fa.foldl (fun s f => { s with rx := s.rx ++ [toWire f] }) sb
@@ -110,8 +108,8 @@ def settleSess (ss : Sess) (pa : List Key := []) (pb : List Key := []) : Sess :=
     match ss.sides[0]? with
     | none => ss
     | some a =>
-      let (s', ok) := settleC a.chq pa a.s
-      { ss with sides := ss.sides.set! 0 (a.withState s'), diverged := ss.diverged || !ok }
+      let (s', q, ok) := settleC a.chq pa a.s
+      { ss with sides := ss.sides.set! 0 (a.withState s' q), diverged := ss.diverged || !ok }
   else
     match ss.sides[0]?, ss.sides[1]? with
     | some a0, some b0 =>
